@@ -297,6 +297,17 @@ class Ctx:
                     same = base is not None and strip(l[2][0]) == base if l[0] == "call" and l[2] else False
                     if l[0] == "call" and l[1].endswith("::len") and r[0] == "const" and int(r[2]) > need and same:
                         return True, "I9 index below an established length", "dominated by `%s.len() == %s`" % (expr_str(strip(l[2][0]))[:40], r[2])
+                # the same tests written as early returns: `if v.len() != N { return }`, `if v.len() < N { return }`
+                if cs[0] == "bin" and cs[1] == "Ne" and tk == 0:
+                    l, r = strip(cs[2]), strip(cs[3])
+                    same = base is not None and l[0] == "call" and l[2] and strip(l[2][0]) == base
+                    if l[0] == "call" and l[1].endswith("::len") and r[0] == "const" and int(r[2]) > need and same:
+                        return True, "I9 index below an established length", "dominated by the false edge of `%s.len() != %s`" % (expr_str(strip(l[2][0]))[:40], r[2])
+                if cs[0] == "bin" and cs[1] in ("Lt", "Le") and tk == 0:
+                    l, r = strip(cs[2]), strip(cs[3])
+                    same = base is not None and l[0] == "call" and l[2] and strip(l[2][0]) == base
+                    if l[0] == "call" and l[1].endswith("::len") and r[0] == "const" and same and (int(r[2]) > need if cs[1] == "Lt" else int(r[2]) >= need):
+                        return True, "I9 index below an established length", "dominated by the false edge of `len() %s %s`" % ("<" if cs[1] == "Lt" else "<=", r[2])
                 if cs[0] == "bin" and cs[1] in ("Ge", "Gt") and tk != 0:
                     l, r = strip(cs[2]), strip(cs[3])
                     same = base is not None and l[0] == "call" and l[2] and strip(l[2][0]) == base
